@@ -17,6 +17,12 @@ import (
 
 const saramaPath = "github.com/Shopify/sarama"
 
+// noNormalise switches the inventory-based normalisation off (flag -no-normalise, debugging only).
+var noNormalise bool
+
+// normOverlay: the normalised sources of the last Load (for dumping next to the evidence).
+var normOverlay map[string][]byte
+
 type Program struct {
 	Repo   string
 	Fset   *token.FileSet
@@ -30,6 +36,8 @@ type Program struct {
 	Blocks int
 	Instrs int
 	GOARCH string
+
+	Normalised *NormaliseReport // non-nil when the source contains functions that are not in the inventory
 
 	refStatic map[*ssa.Function]int
 	refOther  map[*ssa.Function]bool
@@ -69,7 +77,47 @@ func Load(repo, goarch string, overlay map[string][]byte) (*Program, error) {
 	if nerr > 0 {
 		return nil, fmt.Errorf("load: %d type/parse errors, first: %s", nerr, first)
 	}
-	p := &Program{Repo: repo, Fset: pkgs[0].Fset, Pkgs: pkgs, ByName: map[string]*ssa.Function{}, GOARCH: goarch}
+	// functions that are not in the frozen inventory: inline them back into their callers first (normalise.go)
+	var normRep *NormaliseReport
+	if !noNormalise {
+		inv := loadInventory()
+		hasNew := false
+		for name := range declaredFuncs(pkgs) {
+			if !inv[name] {
+				hasNew = true
+				break
+			}
+		}
+		if hasNew {
+			ov, rep, nerr := normalise(repo, goarch, overlay)
+			if nerr != nil {
+				return nil, nerr
+			}
+			normRep = rep
+			if len(rep.Inlined) > 0 || len(rep.Deleted) > 0 {
+				cfg.Overlay = ov
+				pkgs, err = packages.Load(cfg, ".", "./mocks")
+				if err != nil || len(pkgs) != 2 {
+					return nil, fmt.Errorf("load after normalisation: %v", err)
+				}
+				var first string
+				n := 0
+				packages.Visit(pkgs, nil, func(p *packages.Package) {
+					for _, e := range p.Errors {
+						if n == 0 {
+							first = e.Error()
+						}
+						n++
+					}
+				})
+				if n > 0 {
+					return nil, fmt.Errorf("load after normalisation: %d type/parse errors, first: %s", n, first)
+				}
+				normOverlay = ov
+			}
+		}
+	}
+	p := &Program{Repo: repo, Fset: pkgs[0].Fset, Pkgs: pkgs, ByName: map[string]*ssa.Function{}, GOARCH: goarch, Normalised: normRep}
 	p.Prog, p.SPkgs = ssautil.Packages(pkgs, ssa.InstantiateGenerics)
 	for i, sp := range p.SPkgs {
 		if sp == nil {
